@@ -194,6 +194,16 @@ EXTRA9 = {
 }
 for _pid, _t in EXTRA9.items():
     EXTRA[_pid] = EXTRA.get(_pid, '') + ' ' + _t
+EXTRA10 = {
+ 'C04': 'Empty non-nil byte slices through BiMapB in both directions.',
+ 'C05': 'Partition over an input that is filled only after the stage was built, halves collected one after the other.',
+ 'C07': 'Try mode with an error reader that pauses up to an hour after each error (virtual time): one error per failing element.',
+ 'C09': 'fork.Map / fork.FMap under Try with slow error readers.',
+ 'C11': 'Consumers that keep reading after cancel or a deadline stop after 200 further values and report.',
+ 'C18': 'Eight goroutines, each owning a private list and a private map, at work at the same time, also under the race detector.',
+}
+for _pid, _t in EXTRA10.items():
+    EXTRA[_pid] = EXTRA.get(_pid, '') + ' ' + _t
 for _pid, _t in EXTRA.items():
     TEXT[_pid]['text'] += ' ' + _t
 TEXT['C09']['note'] = 'Fail-fast (Lift) mode is exercised at scale only for closure, no-leak and "errors only for failing elements" (which workers fail first is not determined); the multiset verdict is for Pure and Try modes. Distinct output orders are counted per child process.'
